@@ -103,10 +103,13 @@ def gen_random(rng):
             elif state[p] == "live":
                 hist.append(("vanish", p))
                 state[p] = "free"
-        elif r < 0.58:
+        elif r < 0.55:
             hist.append(("new", p))
             if state[p] != "free":
                 nh += 1
+        elif r < 0.58:
+            hist.append(("newp", p))      # psutil.Popen object for that pid (created even if the pid is already gone)
+            nh += 1
         elif r < 0.66:
             hist.append(("step", rng.choice([1, -1, 7, -7, 300, -300, 86400, -86400, 3600 * 24 * 365])))
         elif r < 0.72:
